@@ -679,6 +679,26 @@ impl Creds {
 //@@ end
 #[verifier::external_body]
 pub fn init_mechanism_is(init: &SaslInit, c: &Creds) -> (r: bool) { unimplemented!() }
+/// a value drawn from the random number generator by the call that is running now
+pub uninterp spec fn fresh_nonce(n: Seq<u8>) -> bool;
+/// auth::scram::generate_nonce (`rand::rng().random()`)
+#[verifier::external_body]
+pub fn generate_nonce() -> (r: [u8; 32]) ensures fresh_nonce(r@) { unimplemented!() }
+/// the base64 text of a nonce is as fresh as the nonce
+pub uninterp spec fn fresh_text(s: Seq<char>) -> bool;
+#[verifier::external_body]
+pub fn b64_encode_nonce(n: [u8; 32]) -> (r: String) ensures fresh_text(r@) == fresh_nonce(n@) { unimplemented!() }
+#[verifier::external_body]
+pub fn str_to_string(s: &str) -> (r: String) ensures r@ == s@ { unimplemented!() }
+pub struct ServerFirstMessage<'a> { pub username: &'a str, pub client_first_message_bare: Bytes, pub client_server_nonce: Bytes, pub message: Bytes }
+impl ScramVersion {
+    /// ScramVersion::compute_server_first_message (parses client-first, looks the user up, builds `r=<client nonce><server nonce>,s=<salt>,i=<iterations>`): stand-in
+    #[verifier::external_body]
+    pub fn compute_server_first_message<'a>(&self, client_first_message: &'a [u8], base64_server_nonce: &str, credentials: &Creds) -> (r: Result<Option<ServerFirstMessage<'a>>, ServerScramErrorKind>)
+        requires fresh_text(base64_server_nonce@),        // [C19.listener.scram.fresh-server-nonce] every exchange gets a server nonce drawn for it: a recorded client-first / client-final pair cannot be replayed against the listener, because the nonce it was computed for is never offered again
+        ensures r is Ok && r->Ok_0 is Some ==> small(r->Ok_0->Some_0.client_first_message_bare@.len() as int) && small(r->Ok_0->Some_0.message@.len() as int),
+    { unimplemented!() }
+}
 
 /// the client authenticated: the listener was waiting for a client-final message of a known user and that message checks out against the user's stored key
 pub open spec fn sp_authenticated(a: ScramAuthenticator, client_final: Seq<u8>) -> bool {
@@ -695,11 +715,20 @@ pub open spec fn auth_small(a: ScramAuthenticator) -> bool {
 
 impl ScramAuthenticator {
     pub fn credentials(&self) -> (r: &Creds) ensures *r == self.credentials { &self.credentials }
-    /// stand-in: answering a client-first message never completes an authentication (it can only (re)start one)
-    #[verifier::external_body]
-    pub fn compute_server_first_message(&mut self, client_first_message: &[u8]) -> (r: Result<Option<Vec<u8>>, ServerScramErrorKind>)
-        ensures final(self).credentials == old(self).credentials, auth_small(*final(self)),
-    { unimplemented!() }
+//@@ fn file=fe2o3-amqp/src/auth/scram/server.rs impl=`~impl<C>ScramAuthenticator<C>` name=compute_server_first_message
+//@@ qmark
+//@@ ret Result<Option<Vec<u8>>, ServerScramErrorKind>
+//@@ subst `use base64::Engine;` => `` rule=optional-R6
+//@@ subst `base64::engine::general_purpose::STANDARD.encode(nonce)` => `b64_encode_nonce(nonce)` rule=optional-R9
+//@@ subst `server_first.username.to_string()` => `str_to_string(server_first.username)` rule=R16
+//@@ subst `server_first.message.to_vec()` => `server_first.message.clone()` rule=R9
+//@@ spec
+    requires auth_small(*old(self)),
+    ensures
+        final(self).credentials == old(self).credentials, auth_small(*final(self)),
+        r is Ok && r->Ok_0 is None ==> final(self).state == old(self).state,
+        !(final(self).state is ServerFinalSent) || old(self).state is ServerFinalSent,       // [C19.listener.scram.first-never-authenticates] answering a client-first message never completes an authentication (it can only (re)start one)
+//@@ end
 
 //@@ fn file=fe2o3-amqp/src/auth/scram/server.rs impl=`~impl<C>ScramAuthenticator<C>` name=compute_server_final_message
 //@@ qmark
